@@ -295,14 +295,17 @@ def check_codec(ctx, rep):
             if not c.startswith('bincode::') or f is of:
                 continue
             seg = last_seg(c)
-            if seg in ('from_slice', 'new') and ('Deserializer' in c or 'Serializer' in c):
+            if seg in ('from_slice', 'new', 'with_reader', 'from_reader') and ('Deserializer' in c or 'Serializer' in c):
                 users += 1
                 opt = t['args'][-1]
-                srcs = origins(f, opt)
+                # a byte limit does not change the encoding
+                srcs = origins(f, opt, extra_identity=[('bincode::config::Options::with_limit', 0)])
                 ok = bool(srcs) and all(o.kind == 'call' and path_matches(o.term.get('callee'), norm(of.path)) for o in srcs)
                 rep.expect('R10.d', ok, '%s|%s' % (f.kpath, seg + ('-de' if 'Deserializer' in c else '-ser')),
                            'options come from %s' % of.name,
                            '%s builds a bincode %s with options not obtained from %s' % (f.where(bb), seg, of.path))
+            elif seg in ('with_limit',):
+                continue
             else:
                 rep.bad('R10.d', '%s|%s' % (f.kpath, c), 'second codec entry point: %s calls %s' % (f.where(bb), c))
     if users < 5:
@@ -313,7 +316,9 @@ def check_codec(ctx, rep):
         if len(sites) >= 2:
             calls = set()
             for bb, t in sites:
-                for o in origins(f, t['args'][-1]):
+                if last_seg(t.get('callee') or '') == 'with_limit':
+                    continue
+                for o in origins(f, t['args'][-1], extra_identity=[('bincode::config::Options::with_limit', 0)]):
                     calls.add(o.bb if o.kind == 'call' else None)
             rep.expect('R10.d', len(calls) == 1 and None not in calls, '%s|one-options-value' % f.kpath,
                        'deserializer and serializer share the result of one bincode_options() call',
